@@ -18,6 +18,7 @@ from .values import (BoundMethod, BreakSig, Builtin, ClassM, ClassV,
                      StrSubObj, StreamV, SuperV, Sym, SymDict, SymSeq,
                      TupleObj, is_sym, mk, z3bool, z3int, z3str)
 
+from .values import SetV
 REPO = os.environ.get('PYVC_REPO', '/repo')
 RANGE_BOUND = 3
 
@@ -561,6 +562,8 @@ class Interp(object):
 
     def iterate(self, it):
         """python iterator over interpreter values"""
+        if isinstance(it, SetV):
+            return list(it.items)
         if isinstance(it, (list, tuple)):
             return iter(list(it))
         if isinstance(it, GenV):
@@ -623,13 +626,11 @@ class Interp(object):
         elif isinstance(t, ast.Subscript):
             o = self.eval(t.value, env)
             k = self.eval(t.slice, env)
-            if isinstance(o, (list, dict)) and not is_sym(k):
+            if isinstance(o, dict):
+                self.lib.dict_store(self, o, k, v)
+            elif isinstance(o, list) and not is_sym(k):
                 self.heap_write(o, 'item')
                 o[k] = v
-            elif isinstance(o, dict):
-                # symbolic key: the dict becomes unknown; record the write
-                self.heap_write(o, 'item (symbolic key)')
-                raise OutsideSubset('store under a symbolic dict key')
             else:
                 raise OutsideSubset('subscript store on %r' % (o,))
         else:
@@ -927,6 +928,11 @@ class Interp(object):
         if r is _MISSING:
             if default is not Interp._NOATTR:
                 return default
+            if isinstance(o, (list, dict, frozenset, str, int, tuple, SetV)) \
+                    or is_sym(o):
+                # CPython's object has many more attributes than the model
+                raise OutsideSubset('%s.%s is not modelled' % (
+                    type(o).__name__, name))
             raise PyExc(self.make_exc(
                 'AttributeError', '%r has no attribute %s' % (o, name)))
         return r
